@@ -398,6 +398,9 @@ def _subs(tier, prop):
             pre=['t0 < t1', 't1 < t2']))
         S.append(mk_sub('F5-external-holder', with_ops(serial('P', 2, res={'r': 1}) | {'pools': {'r': 1}}, [
             {'k': 'hold', 'res': 'r', 'amount': 1, 't': 0, 'prio': 'high'}, {'k': 'unhold', 'res': 'r', 't': 't0'}]), mons, zero=['cs']))
+        # the finished part waits for a slow consumer: the holder is idle (nothing in process) and must have let go
+        S.append(mk_sub('F5-finished-part-waits-for-a-slow-consumer', serial('PH', 3, res={'r': 1}) | {'pools': {'r': 1}}, mons,
+                        zero=['cs', 'c0'], pre=['c1 < c2']))
         S.append(mk_sub('F5-two-resources', serial('P', 2, res={'r': 1, 's': 'a1'}) | {'pools': {'r': 1, 's': 'k1'}}, mons, zero=['cs'],
                         ranges={'a1': (0, L.T), 'k1': (0, L.T)}))
     elif prop == 'C15':
@@ -616,11 +619,26 @@ def _applicable(prop, spec):
     return 'source' in kinds
 
 
-def _cross_pool(prop):
-    """Thorough tier: the quick models of every *other* device-level property, run with this property's monitors."""
+QUICK_CROSS_MAX_CPU = 40.0     # CPU-seconds of an analysis (as measured with its owner's monitors, harness/costs.json)
+
+
+def _costs():
+    import json
+    import os
+    try:
+        return json.load(open(os.path.join(os.path.dirname(os.path.abspath(__file__)), 'costs.json')))
+    except (OSError, ValueError):
+        return {}
+
+
+def _cross_pool(prop, tier='thorough'):
+    """The quick models of every *other* device-level property, run with this property's monitors.  Thorough tier: all of
+    them.  Quick tier: those whose measured cost (tools/costs.py, from the owner's last quick run) is at most
+    QUICK_CROSS_MAX_CPU; a model without a measured cost is left to the thorough tier."""
     import json
     out, seen = [], set()
-    for s in _subs('thorough', prop) + _subs('quick', prop):
+    costs = _costs() if tier == 'quick' else None
+    for s in (_subs('thorough', prop) if tier == 'thorough' else []) + _subs('quick', prop):
         seen.add(json.dumps(s['shape']['spec'], sort_keys=True))
     for other in LINE_PROPS:
         if other == prop:
@@ -630,6 +648,10 @@ def _cross_pool(prop):
             key = json.dumps(spec, sort_keys=True)
             if key in seen or not _applicable(prop, spec):
                 continue
+            if costs is not None:
+                c = costs.get(other, {}).get('base', {}).get(s['name'])
+                if c is None or c > QUICK_CROSS_MAX_CPU:
+                    continue
             seen.add(key)
             t = dict(s, name=f'x{other}:' + s['name'], shape=dict(s['shape'], monitors=OWN_MONITORS[prop]))
             out.append(t)
@@ -639,10 +661,10 @@ def _cross_pool(prop):
 def jobs(tier, prop):
     subs = []
     own = _subs(tier, prop)
-    if tier == 'thorough' and prop in LINE_PROPS:
-        own = own + _cross_pool(prop)
+    if prop in LINE_PROPS:
+        own = own + _cross_pool(prop, tier)
     for s in own:
-        if tier == 'quick' and s['name'].startswith(FIFO):
+        if tier == 'quick' and s['name'].split(':', 1)[-1].startswith(FIFO):
             # un-batching into single parts at one instant: dozens of equal-time events; the tie-break order is fixed
             # (first created first) in these analyses so that the batch sizes can be explored exhaustively
             s = dict(s, name=s['name'] + '-fifo', weights='fifo')
@@ -655,8 +677,22 @@ def jobs(tier, prop):
             subs += split_by_order(s, list(zip(names, names[1:]))[:3])
         else:
             subs.append(s)
-    return pack(subs, (64 if prop == 'C04' else 32) if tier == 'quick' else 64, lambda s: 1.0, f'{prop.lower()}-l', weights='distinct',
-                timeout=170 if tier == 'quick' else 300)
+    costs = _costs()
+
+    def weight(s):
+        # measured CPU-seconds of the analysis where known (balances the worker processes); 10 otherwise
+        nm, owner = s['name'], prop
+        if nm.startswith('x') and ':' in nm[:5]:
+            owner, nm = nm[1:].split(':', 1)
+        c = costs.get(owner, {})
+        if nm in c.get('exact', {}):
+            return max(0.5, c['exact'][nm])
+        b = nm.split('#')[0]
+        if b in c.get('base', {}):
+            return max(0.5, c['base'][b] / (9 if '#' in nm else 1))
+        return 10.0
+    return pack(subs, (64 if prop == 'C04' else 48) if tier == 'quick' else 64, weight, f'{prop.lower()}-l', weights='distinct',
+                timeout=240 if tier == 'quick' else 300)
 
 
 def bounds_text(tier, prop):
@@ -664,8 +700,9 @@ def bounds_text(tier, prop):
         return ('device tier (dispatch-order and run-contract monitor on real multi-device models): ' +
                 '; '.join(s['name'] for s in _subs(tier, prop)))
     extra = ''
-    if tier == 'thorough' and prop in LINE_PROPS:
-        extra = f' + {len(_cross_pool(prop))} models of the other device-level properties (prefixed x<id>:) run with this property\'s monitors'
+    if prop in LINE_PROPS:
+        extra = (f' + {len(_cross_pool(prop, tier))} models of the other device-level properties (prefixed x<id>:) run with this property\'s '
+                 'monitors' + (f' (quick tier: those measured at <= {QUICK_CROSS_MAX_CPU:.0f} CPU-s)' if tier == 'quick' else ''))
     return ('models: ' + '; '.join(s['name'] for s in _subs(tier, prop)) + extra + ' -- serial lines Source -> stations -> Sink with the '
             'listed station kinds (H handler, P processor, B buffer), n = source part budget, fault/blocking operations at '
             'symbolic instants; all cycle times, delays and instants symbolic ints in [1, 10**6] unless named zero; every '
